@@ -272,6 +272,11 @@ def rule_r2(prog, res) -> None:
                 restored.append(ev)
             if ev.kind == "call" and any(k.name == "Binning" for k in prog.resolve_call(ev.fi, ev.node).classes()):
                 restored.append(ev)
+    wk, rk = {tuple(k for k, _, _ in q) for q in writes}, {tuple(k for k, _, _ in q) for q in reads}
+    if writes and reads and len(wk) == 1 and len(rk) == 1 and wk != rk and (("flag", "edges") in wk or ("flag", "edges") in rk) and all(set(q) <= {"flag", "edges"} for q in wk | rk):
+        # one side still has the (flag byte, edges) layout, the other a different one: the marker is not read back as written
+        res.violation("C07.R2", build0 if ("flag", "edges") in rk else init0, (build0 if ("flag", "edges") in rk else init0).node, f"the binning marker is written as {list(next(iter(wk)))} but read as {list(next(iter(rk)))}: the closed-side byte / the edges are taken from the wrong bytes, the reuse predicate compares a binning that was never stored (trees are rebuilt every time, or reused for another binning)", key_extra="marker-layout-mismatch")
+        return
     if not writes or not reads or any([k for k, _, _ in seq] != ["flag", "edges"] for seq in writes + reads):
         raise AnalysisError(f"C07.R2: marker writer/reader shape changed (writes={[[k for k, _, _ in q] for q in writes][:2]}, reads={[[k for k, _, _ in q] for q in reads][:2]}); idiom not recognised")
     w_flag, w_edges = writes[0][0][1], writes[0][1][1]
